@@ -13,6 +13,7 @@
  * See the License for the specific language governing permissions and
  * limitations under the License.
  */
+#include <unifex/detail/verif_hooks.hpp>
 #include <unifex/timed_single_thread_context.hpp>
 
 namespace unifex {
@@ -33,6 +34,7 @@ timed_single_thread_context::~timed_single_thread_context() {
 }
 
 void timed_single_thread_context::enqueue(task_base* task) noexcept {
+  UNIFEX_VERIF_POINT(423);
   std::lock_guard lock{mutex_};
 
   if (head_ == nullptr || task->dueTime_ < head_->dueTime_) {
@@ -85,6 +87,7 @@ void timed_single_thread_context::run() {
         lock.unlock();
 
         task->execute();
+        UNIFEX_VERIF_POINT(422);
 
         lock.lock();
       } else {
@@ -115,6 +118,7 @@ void _timed_single_thread_context::cancel_callback::operator()() noexcept {
       task_->prevNextPtr_ = nullptr;
       lock.unlock();
 
+      UNIFEX_VERIF_POINT(421);
       // And requeue with an updated time.
       task_->dueTime_ = now;
       task_->context_->enqueue(task_);
